@@ -103,8 +103,26 @@ def check_all(ctx, facts):
                             sent = cand
                             cond = info
                             cond_side = side
+    slice_model = False
     if header is None:
-        ctx.fail("R2", TR, fn.span, "the send loop compares a progress counter with spans.len()", "no such loop condition", extra="loop")
+        # the other cursor shape: a shrinking slice `remaining` (`while !remaining.is_empty() { .. remaining = rest }`)
+        for sb in range(len(fn.blocks)):
+            t = fn.blocks[sb]["term"]
+            if t["k"] != "switch" or t["discr_ty"] != "bool" or not fn.on_cycle(sb) or t["discr"]["k"] == "const":
+                continue
+            for o in prov.of_operand(fn, t["discr"]):
+                calls = [v for v in o.via if v[0] == "call" and v[1].endswith("slice::<impl [T]>::is_empty")]
+                if not calls or calls[0][2] >= len(fn.blocks) or fn.blocks[calls[0][2]]["term"].get("callee") != calls[0][1]:
+                    continue
+                arg = fn.term(calls[0][2])["args"][0]
+                rl = root_local(fn, arg)[0]
+                if rl > fn.arg_count and "SpanRecord]" in fn.locals[rl] and any(x.kind == "param" and x.key == 2 for x in prov.of_local(fn, rl)):
+                    header, sent, slice_model = sb, rl, True
+                    cond = {"op": "IsEmpty", "neg": sum(1 for v in o.via if v[0] == "unop" and v[1] == "Not") % 2 == 1}
+                    cond_side = "a"
+    if header is None:
+        ctx.fail("R2", TR, fn.span, "the send loop compares a progress counter with spans.len() (or runs while a shrinking slice of the "
+                 "spans is non-empty)", "no such loop condition", extra="loop")
         return
     # the natural loop: find the header block that dominates the condition and is a back-edge target
     heads = [h for h in range(len(fn.blocks)) if fn.dominates(h, header) and len(fn.natural_loop(h)) > 1 and header in fn.natural_loop(h)]
@@ -120,6 +138,9 @@ def check_all(ctx, facts):
     rem = prov.of_operand(fn, fn.term(mins[0])["args"][1])
     ok_rem = any(v[0] == "binop" and v[1] in ("SubWithOverflow", "Sub") for o in rem for v in o.via) and \
         any(v[0] == "call" and v[1].endswith("slice::<impl [T]>::len") for o in rem for v in o.via)
+    if slice_model:
+        lens = [v[2] for o in rem for v in o.via if v[0] == "call" and v[1].endswith("slice::<impl [T]>::len")]
+        ok_rem = bool(lens) and all(root_local(fn, fn.term(l)["args"][0])[0] == sent for l in lens if l < len(fn.blocks) and fn.blocks[l]["term"]["k"] == "call")
     ctx.check(ok_rem, "R3", TR, fn.loc(mins[0]), "batch_size is bounded by the number of spans not yet handled (len - sent_spans)", "",
               "second argument of min: %s" % origin_strs(rem), extra="remaining")
 
@@ -131,6 +152,31 @@ def check_all(ctx, facts):
         return pred
 
     incs = local_defs_from(fn, sent, add_of(sent))
+    slice_incs = []
+    splits = []
+    if slice_model:
+        # remaining = rest (of split_at(remaining, batch_size)) | remaining = &remaining[k..]
+        for (db, i, st) in fn.defs(sent):
+            if i == "term" or st["k"] != "assign" or st["lhs"]["p"] or db not in body:
+                continue
+            src = prov._of_rvalue(fn, db, st["rv"], (), 0, set())
+            sp = [v[2] for o in src for v in o.via if v[0] == "call" and re.search(r"slice::<impl \[T\]>::split_at(_checked)?$", v[1])]
+            ix = [v[2] for o in src for v in o.via if v[0] == "call" and re.search(r"Index(<.*>)?( for \[T\])?>?::index$", v[1])]
+            if sp and any(".1" in o.path for o in src):
+                t2 = fn.term(sp[0])
+                isb = root_local(fn, t2["args"][0])[0] == sent and t2["args"][1]["k"] in ("copy", "move") and root_local(fn, t2["args"][1])[0] == batch
+                slice_incs.append((db, None, isb))
+                splits.append(sp[0])
+            elif ix:
+                t2 = fn.term(ix[0])
+                k = None
+                rng = t2["args"][1]
+                if rng["k"] in ("copy", "move"):
+                    sd = fn.single_def(root_local(fn, rng)[0])
+                    if sd and sd[1] != "term" and sd[2]["rv"]["k"] == "agg" and sd[2]["rv"].get("adt", "").endswith("ops::range::RangeFrom"):
+                        k = const_value(fn, sd[2]["rv"]["ops"][0])
+                if root_local(fn, t2["args"][0])[0] == sent:
+                    slice_incs.append((db, k, False))
     divs = local_defs_from(fn, per_batch, lambda rv: rv["k"] == "binop" and rv["op"] == "Div" and
                            rv["a"]["k"] in ("copy", "move") and root_local(fn, rv["a"])[0] == per_batch)
     inc_info = []
@@ -139,6 +185,8 @@ def check_all(ctx, facts):
         cv = const_value(fn, other)
         is_batch = other["k"] in ("copy", "move") and root_local(fn, other)[0] == batch
         inc_info.append((b, cv, is_batch))
+    if slice_model:
+        inc_info = slice_incs
     div_info = [(b, const_value(fn, rv["b"])) for b, rv in divs]
     # ---------------------------------------------------------------- R2: progress on every iteration
     progress = {b for b, cv, isb in inc_info if (cv is not None and cv >= 1) or isb} | {b for b, c in div_info if c is not None and c > 1}
@@ -190,6 +238,10 @@ def check_all(ctx, facts):
         cs = prov.of_operand(fn, fn.term(conv[0])["args"][1]) if conv else set()
         okw = okw and any(v[0] == "call" and re.search(r"Index(<.*>)?( for \[T\])?>?::index$", v[1]) for o in cs for v in o.via) and \
             has_origin(cs, kind="param", key=2)
+    if slice_model:
+        cs = prov.of_operand(fn, fn.term(conv[0])["args"][1]) if conv else set()
+        sp2 = [v[2] for o in cs for v in o.via if v[0] == "call" and re.search(r"slice::<impl \[T\]>::split_at(_checked)?$", v[1])]
+        okw = bool(sp2) and all(x in splits for x in sp2) and any(".0" in o.path for o in cs) and has_origin(cs, kind="param", key=2)
     ctx.check(okw, "R3", TR, fn.loc(rng[0][0]) if rng else fn.span,
               "the window converted is spans[sent_spans .. sent_spans + batch_size]", "", "range construction differs", extra="window")
     after_send = [(b, cv, isb) for b, cv, isb in inc_info if b in fn.reach([(S, fn.term(S)["target"])]) and S in fn.dominators().get(b, ())]
@@ -210,7 +262,9 @@ def check_all(ctx, facts):
                 exits.add((b, d))
     allowed = set()
     # the loop condition's false edge
-    want_exit = {"Lt": False, "Le": False, "Gt": False, "Ge": False, "Ne": False}[cond["op"]]
+    want_exit = {"Lt": False, "Le": False, "Gt": False, "Ge": False, "Ne": False, "IsEmpty": True}[cond["op"]]
+    if cond["op"] == "IsEmpty" and cond.get("neg"):
+        want_exit = not want_exit
     for a, d, _ in fn.switch_edges(header, want_exit):
         allowed.add((a, d))
     # error propagation through `?`
@@ -228,7 +282,7 @@ def check_all(ctx, facts):
     ctx.check(not extra and bool(exits), "R4", TR, fn.span,
               "the loop ends only when sent_spans reaches spans.len() (or an I/O / encoding error is propagated)",
               "exits %s" % sorted(exits), "other exits %s" % sorted(extra), extra="exits")
-    ok_cond = (cond["op"] == "Lt" and cond_side == "a") or (cond["op"] == "Gt" and cond_side == "b")
+    ok_cond = (cond["op"] == "Lt" and cond_side == "a") or (cond["op"] == "Gt" and cond_side == "b") or cond["op"] == "IsEmpty"
     ctx.check(ok_cond, "R4", TR, fn.loc(header), "the loop continues exactly while sent_spans < spans.len()", "%s" % cond["op"],
               "condition is %s with the counter on side %s" % (cond["op"], cond_side), extra="cond")
 
